@@ -5,7 +5,7 @@
    without '\n'; the reader follows ANY schedule [sch] of read sizes. *)
 From Coq Require Import ZArith List Bool.
 From RM Require Import Base.Word C08.Model C11.Model C09.Model C09.Grammar C09.Driver C09.Proofs C09.ProofsBytes C09.ProofsFinish C09.ProofsFinal C09.ProofsTrace C09.Circular C09.ProofsCircular C09.ProofsLines C09.ProofsTable.
-From RM Require C09.Pins C09.PinsMem C08.Proofs C09.PinsNum Gen.C09Numeric.
+From RM Require C09.Pins C09.PinsMem C08.Proofs C09.PinsNum Gen.C09Numeric C09.ProofsText.
 Import ListNotations.
 Open Scope Z_scope.
 
@@ -546,3 +546,37 @@ Example c09_nonvacuous_numeric :
   = (Ret (Some ([122], 6905)), Ret (Some ([57], 305419896)), Ret None,
      Ret (Some ([32], 4294967295)), Ret None, Ret (Some ([49], 1)), Ret None).
 Proof. vm_compute. reflexivity. Qed.
+
+(* The text fields of a record on BYTES (Grammar.v works on run-length encoded lines).  `my_eol`: everything left of the
+   line must be '\r'.  `terminated(map_res(not_my_eol, from_utf8), my_eol)` (names, rule strings, program strings, URL): the
+   line splits - at its first '\r' - into a name without '\r' and a rest; the field is accepted iff the name is valid UTF-8
+   and the rest consists of '\r' only, and the string returned has exactly the bytes of the name.  `str::from_utf8` validity:
+   the run-length shortcut of the model is the byte-by-byte automaton, and that automaton accepts exactly the well-formed
+   byte sequences of the Unicode standard (table 3-7: no overlong forms, no surrogates, nothing above U+10FFFF). *)
+Theorem c09_text_fields_on_bytes :
+  (forall s, eol s = true <-> Forall (fun b => b = 13) (PinsNum.expand s)) /\
+  (forall s, exists name rest,
+      PinsNum.expand s = name ++ rest /\ Forall (fun b => b <> 13) name /\ ProofsText.starts (fun b => b = 13) rest /\
+      name_eol s = (if ProofsText.utf8_bytes name && forallb (fun b => b =? 13) rest
+                    then Some (rle_norm (fst (span_not is_cr s))) else None) /\
+      PinsNum.expand (rle_norm (fst (span_not is_cr s))) = name) /\
+  (forall s, utf8_ok s = ProofsText.utf8_bytes (PinsNum.expand s)) /\
+  (forall l, ProofsText.utf8_bytes l = true <-> ProofsText.wf8 l) /\
+  (forall l, PinsNum.expand (to_rle l) = l).
+Proof.
+  split; [exact ProofsText.eol_bytes|]. split; [exact ProofsText.name_eol_bytes|].
+  split; [exact ProofsText.utf8_ok_bytes|]. split; [exact ProofsText.utf8_run_wf|exact PinsNum.expand_to_rle].
+Qed.
+Print Assumptions c09_text_fields_on_bytes.
+
+(* non-vacuity: "é€" + U+1F600 is well formed and accepted; an overlong form (C0 80), a surrogate (ED A0 80), a code point
+   above U+10FFFF (F4 90 80 80) and a run of five continuation bytes are rejected; "ab\r\r" is the name "ab" *)
+Example c09_nonvacuous_text :
+  ProofsText.wf8 [195; 169; 226; 130; 172; 240; 159; 152; 128] /\
+  (utf8_ok [(195, 1); (169, 1); (226, 1); (130, 1); (172, 1); (240, 1); (159, 1); (152, 1); (128, 1)],
+   utf8_ok [(192, 1); (128, 1)], utf8_ok [(237, 1); (160, 1); (128, 1)], utf8_ok [(244, 1); (144, 1); (128, 2)],
+   utf8_ok [(128, 5)], name_eol [(97, 1); (98, 1); (13, 2)], name_eol [(97, 1); (13, 1); (98, 1)])
+  = (true, false, false, false, false, Some [(97, 1); (98, 1)], None).
+Proof.
+  split; [exact ProofsText.wf8_example|vm_compute; reflexivity].
+Qed.
